@@ -117,7 +117,8 @@ const goodResult = `{"code":200,"message":""}`
 var malformedOutputs = []string{`{"body":{}}`, `[]`, `"x"`, `{"header":1}`, `{"header":{},"body":3}`, `7`, `{"header":[]}`,
 	`{"header":{},"body":null}`, `{"Header":{}}`, `{"header":null}`, `{"HEADER":{},"Body":{}}`, `{"header":{},"body":[]}`, `{"header":"x"}`, `null`, `{}`,
 	`{"header":{},"body":"s"}`, `{"header":{},"body":1.5}`, `{"header":{},"body":false}`, `{"header":null,"body":{}}`}
-var goodOutputs = []string{goodOutput, `{"header":{}}`, `{"header":{"a":1},"body":{"b":[1,2]},"extra":true}`, `{"header":{},"body":{"x":"not-an-integer"}}`, `{"header":{},"body":{"x":1}}`, `{"header":{},"body":{"y":[]}}`}
+var goodOutputs = []string{goodOutput, `{"header":{}}`, `{"header":{"a":1},"body":{"b":[1,2]},"extra":true}`, `{"header":{},"body":{"x":"not-an-integer"}}`, `{"header":{},"body":{"x":1}}`, `{"header":{},"body":{"y":[]}}`,
+	`{"header":{},"body":{"n":1e400}}`, `{"header":{"k":` + strings.Repeat("9", 400) + `},"body":{}}`, `{"header":{},"body":{"f":-0.000000000000000000000000000000000001e-400}}`}
 
 func pick(rng *rand.Rand, n int) int { return rng.Intn(n) }
 
@@ -148,6 +149,12 @@ var discounts = []string{"0.1", "0.5", "0.9", "0.999", "0.000000000000000001", "
 func RandPricing(rng *rand.Rand, base string) string {
 	var sb strings.Builder
 	fmt.Fprintf(&sb, `{"price":"%s%s"`, base, denom)
+	if rng.Intn(12) == 0 {
+		// an open-ended promotion (years 0001 .. 9999), possibly with a volume tier
+		fmt.Fprintf(&sb, `,"promotions_by_time":[{"start_time":"%s","end_time":"9999-12-31T23:59:59Z","discount":"%s"}]}`,
+			[]string{"0001-01-01T00:00:00Z", "2030-01-01T00:00:10Z", "2262-04-11T23:47:16Z"}[rng.Intn(3)], discounts[pick(rng, len(discounts))])
+		return sb.String()
+	}
 	both := rng.Intn(4) == 0
 	if both || rng.Intn(3) == 0 {
 		n := 1 + rng.Intn(2)
@@ -307,7 +314,15 @@ func (g *Gen) opDefine() {
 	case 2:
 		tags = []string{"a", "a\t", " a"}
 	}
-	g.r.Msg(types.NewMsgDefineService(name, "desc", tags, author, "author", someSchemas(g.rng)), "")
+	desc, adesc := "desc", "author"
+	if g.rng.Intn(6) == 0 {
+		desc = strings.Repeat("d", 278+g.rng.Intn(3)-1) + "\xff" // at the length limit, with a byte that is not valid UTF-8
+		if len(desc) > 280 {
+			desc = desc[len(desc)-280:]
+		}
+		adesc = "\xfe\xff" + strings.Repeat("a", 278)
+	}
+	g.r.Msg(types.NewMsgDefineService(name, desc, tags, author, adesc, someSchemas(g.rng)), "")
 }
 
 func (g *Gen) opBind(friendly bool) {
@@ -425,6 +440,9 @@ func (g *Gen) opSetWithdraw() {
 		wa = g.any20()
 	case 3:
 		wa = g.A.Wallets[0]
+	}
+	if g.rng.Intn(8) == 0 {
+		wa = g.r.w.actors[[]string{"feecollector", "escrow", "deposits"}[g.rng.Intn(3)]] // a module account as wallet
 	}
 	if cur, ok := g.r.pre.Withdraw[hexs(owner)]; ok && g.rng.Intn(3) == 0 {
 		_ = cur
@@ -692,6 +710,9 @@ func (g *Gen) opModCreate() {
 		op.Total = []int64{1, 2, 3, -1}[pick(g.rng, 4)]
 	}
 	if g.rng.Intn(6) == 0 {
+		op.Super = true // a module may ask in super mode: no fee is stamped, nothing may be charged
+	}
+	if g.rng.Intn(6) == 0 {
 		op.Module = halfModule // registered a response callback only: must be refused
 		op.Consumer = hexs(g.A.Consumers[2])
 	}
@@ -812,7 +833,8 @@ func (g *Gen) opInvalidShape() {
 	case 10:
 		g.r.Msg(types.NewMsgBindService(svc, g.provider(), coins(100000), price("1"), 0, "{}", g.owner()), "invalid: qos 0")
 	case 11:
-		bad := []string{
+		bad := badPricings
+		_ = []string{
 			`{"price":"1stake","promotions_by_time":[{"start_time":"2030-01-01T00:00:20Z","end_time":"2030-01-01T00:00:10Z","discount":"0.5"}]}`,
 			`{"price":"1stake","promotions_by_time":[{"start_time":"2030-01-01T00:00:10Z","end_time":"2030-01-01T00:00:30Z","discount":"0.5"},{"start_time":"2030-01-01T00:00:20Z","end_time":"2030-01-01T00:00:40Z","discount":"0.6"}]}`,
 			`{"price":"1stake","promotions_by_volume":[{"volume":5,"discount":"0.5"},{"volume":2,"discount":"0.6"}]}`,
@@ -857,7 +879,19 @@ func (g *Gen) opInvalidShape() {
 			g.r.Msg(types.NewMsgUpdateRequestContext(unhex(id), nil, nil, g.p.MaxRequestTimeout+1, uint64(g.p.MaxRequestTimeout)+1, 0, rc.Consumer), "invalid: timeout above the bound")
 		}
 	case 19:
-		if hasB {
+		if hasB && g.rng.Intn(2) == 0 {
+			// a re-pricing that must be refused, with and without a deposit riding along
+			bp := badPricings[g.rng.Intn(len(badPricings))]
+			var dep sdk.Coins
+			if g.rng.Intn(2) == 0 {
+				dep = coins(5)
+			}
+			owner := b.Owner
+			if len(owner) != 20 {
+				owner = g.owner()
+			}
+			g.r.Msg(types.NewMsgUpdateServiceBinding(b.ServiceName, b.Provider, dep, bp, 0, "{}", owner), "invalid: pricing in an update")
+		} else if hasB {
 			g.r.Msg(types.NewMsgUpdateServiceBinding(b.ServiceName, b.Provider, nil, "", uint64(g.p.MaxRequestTimeout)+1, "{}", b.Owner), "invalid: qos above the bound")
 			g.r.Msg(types.NewMsgUpdateServiceBinding(b.ServiceName, b.Provider, nil, "", 0, "", b.Owner), "invalid: empty options")
 		}
@@ -867,6 +901,24 @@ func (g *Gen) opInvalidShape() {
 	case 21:
 		call(provs, goodInput, sdk.NewCoins(sdk.NewCoin("atom", sdk.NewInt(5)), sdk.NewCoin(denom, sdk.NewInt(5))), 2, false, 0, 0, "two-denom cap")
 	}
+}
+
+// pricing texts that bind and update must both refuse
+var badPricings = []string{
+	`{"price":"1stake","promotions_by_time":[{"start_time":"2030-01-01T00:00:20Z","end_time":"2030-01-01T00:00:10Z","discount":"0.5"}]}`,
+	`{"price":"1stake","promotions_by_time":[{"start_time":"2030-01-01T00:00:10Z","end_time":"2030-01-01T00:00:30Z","discount":"0.5"},{"start_time":"2030-01-01T00:00:20Z","end_time":"2030-01-01T00:00:40Z","discount":"0.6"}]}`,
+	`{"price":"1stake","promotions_by_volume":[{"volume":5,"discount":"0.5"},{"volume":2,"discount":"0.6"}]}`,
+	`{"price":"100stake","promotions_by_volume":[{"volume":5,"discount":"0.9"},{"volume":20,"discount":"0.5"},{"volume":10,"discount":"0.8"}]}`,
+	`{"price":"1stake","promotions_by_volume":[{"volume":0,"discount":"0.5"}]}`,
+	`{"price":"1stake","promotions_by_volume":[{"volume":2,"discount":"1.0"}]}`,
+	`{"price":"1stake","promotions_by_volume":[{"volume":2,"discount":"0"}]}`,
+	`{"price":"100stake","promotions_by_volume":[{"volume":2,"discount":"1.5"}]}`,
+	`{"price":"100stake","promotions_by_volume":[{"volume":1,"discount":"10.5"}]}`,
+	`{"price":"100stake","promotions_by_time":[{"start_time":"2030-01-01T00:00:00Z","end_time":"2030-01-02T00:00:00Z","discount":"20.25"}]}`,
+	`{"price":"-1stake"}`, `{"price":"1"}`, `{"price":"1stake","extra":1}`,
+	`{"price":"1stake","promotions_by_volume":[{"volume":2,"discount":"0.5"},{"volume":2,"discount":"0.5"}]}`,
+	`{"price":"1.0000000000000000001stake"}`, `{"price":"0.00000000000000000000000001stake"}`,
+	`{"price":"115792089237316195423570985008687907853269984665640564039457584007913129639936stake"}`,
 }
 
 // opParams: governance changes a parameter on the live chain (never the minimum-deposit
@@ -952,6 +1004,7 @@ func RandomHistory(a *App, mon *Mon, seed int64, n int) *Run {
 	r.SetStateCbKill(r.rng.Intn(5) == 0)
 	r.SetViaApp(r.rng.Intn(2) == 0)
 	r.SetKillOthers(r.rng.Intn(6) == 0)
+	r.SetHostileHashes(r.rng.Intn(3) == 0)
 	if r.rng.Intn(6) == 0 {
 		r.InstallGhost(act.Consumers[0], act.SignProv[0])
 	}
